@@ -27,7 +27,11 @@ THEOREMS = [f'Gnpy.Route.{t}' for t in (
     'linkDisjoint_checker', 'allDisjoint_checker', 'linkDisjoint_symm', 'linkDisjoint_iff', 'oms_disjoint_iff_links',
     'zip_sites', 'linksOf_of_sites', 'isdisjoint_test_iff_linkDisjoint', 'disjointOracle_iff',
     'step2_combinations_disjoint', 'step2_combinations_good', 'selection_sound', 'step4_nil_iff',
-    'step5_single_none_iff', 'pair_complete', 'group_complete_partial', 'overlapping_complete_fails_current')]
+    'step5_single_none_iff', 'pair_complete', 'group_complete_partial', 'overlapping_complete_fails_current')] + [
+    f'Gnpy.Sync.{t}' for t in (
+        'dedup_spec', 'dedup_no_duplicates_fails_current', 'aggregation_preserves_disjointness_demands',
+        'aggregation_pair_demand', 'partners_never_merged', 'merge_requires_same_disj')] + [
+    'Gnpy.Route.single_vector_complete', 'Gnpy.Route.single_vector_complete_distinct']
 RULE = ('one PRNG; a case is a random mesh (ring with chords / grid / random connected graph, quick 4-7 ROADMs, thorough '
         'up to 10; bidirectional links of 1-3 spans, symmetric or not) designed by GNPy, 2-6 requests (often sharing '
         'end points, as in 1+1 protection; ~35 % with STRICT / LOOSE / mixed include lists of ROADMs or line elements) '
@@ -44,9 +48,11 @@ MODEL_SCOPE = ('modelled: isdisjoint, the short list of step 1, find_reversed_pa
                'requests_aggregation (group G\'s C19 model requestsAggregationD, imported) under exact correspondence; '
                'oracle instead of a model for networkx all_simple_paths (candidate lists of step 1 are inputs of the '
                'selection model). One STRICT hop makes a list STRICT. not modelled: propagation, spectrum')
-PARTIAL = ['completeness (a disjoint solution is found whenever one exists) is proved and monitored for one pair of '
-           'requests only; for larger or overlapping synchronisation vectors only soundness is claimed: the first '
-           'combination of one vector can exclude every combination of another (step 5 has no backtracking)']
+PARTIAL = ['completeness (a disjoint solution is found whenever one exists) is proved for one pair of requests and for '
+           'ONE vector of any size under the explicit NoOrphan hypothesis (single_vector_complete; the hypothesis holds '
+           'for pairs and whenever the requests have pairwise different end points), and monitored for pairs; for '
+           'several / overlapping vectors only soundness is claimed: the first combination of one vector can exclude '
+           'every combination of another (step 5 has no backtracking; witness overlapping_complete_fails_current)']
 
 MANIFEST = {
     'text': 'Lean 4 theorems over a model of compute_path_dsjctn steps 2-5 (candidate combinations, Python '
@@ -59,9 +65,11 @@ MANIFEST = {
             'link-disjoint pair of candidates (<= 80 hops) exists. The selection model is fed with the real candidate '
             'lists and compared path-by-path with the code on every run; returned paths go through the verified checker '
             'and an independent OMS-based monitor.',
-    'note': 'networkx all_simple_paths is not modelled (its candidate lists are inputs of the selection model); '
-            'requests_aggregation / deduplicate_disjunctions are observed through the monitor only. Completeness is claimed '
-            'for a single pair only. Trusted base: Lean 4.33 kernel (+ leanchecker in thorough), Mathlib v4.33, axioms '
+    'note': 'networkx all_simple_paths is not modelled (its candidate lists are inputs of the selection model). '
+            'deduplicate_disjunctions (own model) and the vector bookkeeping of requests_aggregation (group G\'s C19 model, '
+            'imported) are under exact correspondence: dedup_spec (nothing invented, nothing lost; "no duplicates left" is '
+            'false for the code and harmless), aggregation_preserves_disjointness_demands (every declared vector survives '
+            'with renamed ids), partners_never_merged. Completeness is claimed for a single pair only. Trusted base: Lean 4.33 kernel (+ leanchecker in thorough), Mathlib v4.33, axioms '
             'propext/Classical.choice/Quot.sound only.',
     'technique': 'Lean 4 theorems over an executable model of the candidate selection + verified disjointness checker and '
                  'pair oracle, differential correspondence against the real code, independent monitor',
